@@ -403,6 +403,15 @@ Definition find_entry (id : Z) (l : list entry) : option entry :=
 Definition find_call (id : Z) (l : list call) : option call :=
   find (fun cl => cl_cert cl =? id) l.
 
+(** S3', across processes: [own] is the staple certmagic itself persisted for [c] earlier in the
+    history (in this or in a previous process) and nobody touched since. While it is reusable,
+    caching [c] does not make the responder see a request. (Of the model this holds because what
+    it persists for [c] is what it later loads for [c]: [own = sget (c_id c) (stor pre)].) *)
+Definition own_reuse (own : option blob) (c : cert) (disabled : bool) (e : env) (now : Z)
+    (calls : list call) : bool :=
+  negb (reusable c now own && negb (e_load_err e) && negb disabled) ||
+  match find_call (c_id c) calls with Some cl => negb (cl_seen cl) | None => true end.
+
 (** the staple of [en] was already attached to the same certificate in [pre] *)
 Definition staple_kept (pre : list entry) (en : entry) : bool :=
   match find_entry (c_id (en_cert en)) pre with
